@@ -20,6 +20,7 @@
 
 
 #include <string>
+#include "celma/log/detail/log_attributes_container.hpp"
 
 
 namespace celma { namespace log { namespace detail {
@@ -58,8 +59,8 @@ public:
    ScopedAttribute& operator =( ScopedAttribute&&) = delete;
 
 private:
-   /// The name of the attribute. Used to remove the attribute again.
-   const std::string  mAttributeName;
+   /// The id of the attribute. Used to remove exactly this attribute again.
+   const LogAttributesContainer::attr_id_t  mAttributeId;
 
 }; // ScopedAttribute
 
